@@ -134,7 +134,9 @@ def np_scalar(dtype_name, v):
         if dtype_name == "bool":
             return d(bool(int(v) % 2) if isinstance(v, (int, float)) and math.isfinite(v) else True)
         if dtype_name.startswith("int"):
-            return d(int(v) if isinstance(v, (int, float)) and math.isfinite(v) else 1)
+            iv = int(v) if isinstance(v, (int, float)) and math.isfinite(v) else 1
+            info = numpy.iinfo(d)
+            return d(max(info.min, min(info.max, iv)))
         if dtype_name.startswith("complex") or dtype_name == "clongdouble":
             if isinstance(v, complex):
                 return d(v)
